@@ -335,7 +335,7 @@ Section Replay.
   Definition flush (s : st) : st :=
     let haves := map fst (filter (fun e : Z * went => snd (snd e) =? THave) (pp s)) in
     let s1 := run fl sh s (if sh then [] else map SPurge haves) in
-    do_step fl sh s1 (SSend (cn s1) (wl_entries (pp s1)) (wl_entries (bp s1))).
+    do_step fl sh s1 (SSend (cn s1) (pp s1) (bp s1)).
 End Replay.
 
 (** [CSched sh univ evs rfinal]: one executed schedule of the real queue with a fake sender
